@@ -130,6 +130,7 @@ func runC15(c *Ctx) {
 	ruleErrOverwrittenInLoop(c, "R-ERRLOOP", c.P.ModulePkgs())
 	// the module cache's archive object is requested atomically (shared with C09 MARKER-ATOMIC)
 	c.Rule("ATOMIC-REQUESTED", "objects whose presence means \"complete\" to a reader are written with the atomic option", 1)
+	c09MarkerLastShared(c, "MARKER-LAST")
 	if pkStore := c.P.Pkg("private/bufpkg/bufmodule/bufmodulestore"); pkStore != nil {
 		cacheTarPutAtomic(c, "ATOMIC-REQUESTED", pkStore)
 	} else {
